@@ -578,7 +578,10 @@ CHECKS = {
     'C20': dict(level='model_checking', invariants=INV['C20'], module='TraceReqMgr',
                 assumptions=['the registry pull is a gated test function installed through a build-tag guarded accessor; RequestManager, its lock, channels and deep copies are the real code',
                              'interleavings inside the mutex-protected sections are reached only by chance (stress driver)'],
-                mc=lambda tier: [dict(name='reqmgr', kind='plain', module='MC_ReqMgr', cfg='MC_ReqMgr.cfg')],
+                mc=lambda tier: [dict(name='reqmgr', kind='plain', module='MC_ReqMgr', cfg='MC_ReqMgr.cfg'),
+                                 # negative control: the in-flight map keyed by repository (seeded change, round 5)
+                                 dict(name='reqmgr-keybyrepo', kind='plain', module='MC_ReqMgr', cfg='MC_ReqMgr_keybyrepo.cfg',
+                                      expect_violation='Inv_C20_RightContent')],
                 jobs=lambda tier, seed: [
                     dict(name='c20-enum', module='TraceReqMgr', shards=8 if tier == 'quick' else 14,
                          driver=['c20-script', '-mode', 'enum', '-steps', '4' if tier == 'quick' else '5']),
